@@ -602,7 +602,9 @@ def check_property(prop, tier, seed, replay=None):
             print('case : %s\nimpl : %s\nmodel: %s\nspec : %s' % row)
 
     reported_known = set()
-    for (row, im, isp, ms) in bad_rows[:50]:
+    # concrete property failures (impl disagrees with the spec oracle) first, wherever they are in the run
+    bad_rows.sort(key=lambda t: (t[2], t[1]))
+    for (row, im, isp, ms) in bad_rows[:400]:
         c, i, m, s = row
         kf = [e for e in known if e.get('input') == c]
         if kf:
